@@ -16,7 +16,7 @@ EXTENDS Integers, Sequences, FiniteSets, TLC, Json
 
 CONSTANTS Kinds,        \* subset of {"choice", "constant", "pattern", "regex"}
           Words,        \* words for choice lists and cells
-          GlobChars,    \* e.g. {"a", "b", "?", "*"}
+          GlobChars,    \* e.g. {"a", "b", "?", "*", "[ab]", "[!a]"} (a character class is one position of the glob)
           Atoms,        \* regex atoms [ch, star]
           TextChars,    \* characters of cells for pattern / regex
           MaxRule, MaxText
@@ -29,7 +29,12 @@ VARIABLES kind, rule, cell, verdict
 vars == <<kind, rule, cell, verdict>>
 
 (* ------------------------------ regular expressions over atoms ------------------------------ *)
-AtomMatches(a, c) == a.ch = "." \/ SameIgnoringCase(a.ch, c)
+\* one position of a glob or an atom against one character: a character class "[seq]" / "[!seq]" (fnmatch) or the character
+CharMatches(tok, c) == CASE tok = "[ab]" -> Lower(c) \in {"a", "b"}
+                         [] tok = "[!a]" -> Lower(c) # "a"
+                         [] tok = "[b]" -> Lower(c) = "b"
+                         [] OTHER -> SameIgnoringCase(tok, c)
+AtomMatches(a, c) == a.ch = "." \/ CharMatches(a.ch, c)
 \* backtracking matcher (mechanism): can r match starting at position i of s, consuming up to the end if `full`?
 RECURSIVE Bt(_, _, _, _)
 Bt(r, s, i, full) ==
@@ -63,7 +68,7 @@ RECURSIVE GlobMatch(_, _)
 GlobMatch(g, s) ==
   IF g = <<>> THEN s = <<>>
   ELSE IF Head(g) = "*" THEN GlobMatch(Tail(g), s) \/ (s # <<>> /\ GlobMatch(g, Tail(s)))
-  ELSE s # <<>> /\ (Head(g) = "?" \/ SameIgnoringCase(Head(g), Head(s))) /\ GlobMatch(Tail(g), Tail(s))
+  ELSE s # <<>> /\ (Head(g) = "?" \/ CharMatches(Head(g), Head(s))) /\ GlobMatch(Tail(g), Tail(s))
 
 (* ------------------------------ the cases ------------------------------ *)
 Cases == (IF "choice" \in Kinds THEN {<<"choice", r, c>> : r \in SeqsUpTo(Words, 3) \ {<<>>}, c \in Words} ELSE {})
